@@ -15,6 +15,7 @@ package api
 // context, original body) - whatever the other options are.
 
 import (
+	"bytes"
 	"context"
 	"fmt"
 	"io"
@@ -388,6 +389,7 @@ func c04EngInterp(t *testing.T, c c04EngCase) (v kit.Verdict) {
 				sr.PLen = 0 // the request line must keep addressing the route
 			}
 			wire := c04Sign(sr, ts)
+			signedBody := wire.Body // the bytes the signature covers (wire.Body may be altered below)
 			if sr.ReqURI {
 				// the route is reached through the request line, the signature covers X-Request-Uri
 				wire.URLPath = sent
@@ -490,11 +492,20 @@ func c04EngInterp(t *testing.T, c c04EngCase) (v kit.Verdict) {
 				// load shedding (another property) turned the request away
 				classes["unjudged:shed-503"] = true
 			case rq.Abort && jwtExp != c04Reject:
-				// body read error: status unspecified; the handler must not run when a strict
-				// signature gate was handed fewer bytes than were signed
+				// body read error: status unspecified; the handler must not run when what a strict
+				// signature gate was handed is not the body that was signed (an altered body cut
+				// back to exactly the signed bytes IS the signed body: admission is then consistent)
 				classes["aborted-body"] = true
-				if g.Sig && g.Strict && c04Verified(wire.Method) && rq.Signed && rq.At < len(wire.Body) && seen.ran != 0 {
-					fail = fmt.Sprintf("%s: only %d of %d signed body bytes arrived, yet the handler ran (status %d)", desc, rq.At, len(wire.Body), code)
+				delivered := wire.Body
+				if rq.At < len(delivered) {
+					delivered = delivered[:rq.At]
+				}
+				if bytes.Equal(delivered, signedBody) && len(wire.Body) != len(signedBody) {
+					classes["aborted-body:altered-body-cut-back-to-the-signed-bytes"] = true
+				}
+				if g.Sig && g.Strict && c04Verified(wire.Method) && rq.Signed && !(tampered && !c04TamperJudged(rq.Tamper)) &&
+					!bytes.Equal(delivered, signedBody) && seen.ran != 0 {
+					fail = fmt.Sprintf("%s: %d of the %d transmitted body bytes arrived (%q), the signature covers %q, yet the handler ran (status %d)", desc, len(delivered), len(wire.Body), delivered, signedBody, code)
 					return
 				}
 			case jwtExp == c04Unspec:
